@@ -12,10 +12,14 @@ MANIFEST = {
                  "on synthesized files against the harness's own top-level box scanner",
     "level_text": "Theorems (coq/c12/C12Theorems.v), for ALL top-level box sequences and decode flags accepted by the "
                   "model: the fragments of the segments hold exactly the emsg/moof/mdat boxes of the input in order "
-                  "(C12_partition), a segment starts at a box iff it is a styp or the delimiter in force designates it "
-                  "(C12_boundaries_*), segment-mode encoding emits init, top-level sidx, every fragment in order and mfra "
-                  "(C12_segment_mode_encode*), and after UpdateSidx the references tile the encoded media with the "
-                  "stated guards (C12_sidx_tiles*). The model is tied to /repo on every run by running it (extracted) "
+                  "(C12_partition, C12_partition_fragmented), every fragment is emsg* [moof [mdat] emsg*] (C12_fragment_shape), "
+                  "the (StartPos, styp) list of the segments equals the declarative boundary rules: styp, or first emsg/moof, or "
+                  "the position designated by top-level sidx references / tfra entry / every moof (C12_boundaries, "
+                  "C12_boundary_rules), segment-mode encoding emits init, top-level sidx, per segment styp/sidx/fragment children "
+                  "in order, then mfra, its media sub-sequence being the input's (C12_segment_mode_encode), and after UpdateSidx "
+                  "reference i starts at the first byte of segment i, the references end at the end of the media, durations are "
+                  "the reference track's sums mod 2^32, reference_ID/timescale are the reference track's, for segments < 2^31 "
+                  "bytes (C12_sidx_tiles). The model is tied to /repo on every run by running it (extracted) "
                   "against mp4.DecodeFile/Encode/UpdateSidx on synthesized files.",
     "level_note": "Trusted: Coq kernel, extraction (ExtrOcamlBasic), the OCaml/Go glue, the abstraction of a top-level box "
                   "to (kind, Size(), the fields the assembly reads). Byte-identity of a re-encoded box is C01/C02's claim; "
@@ -50,7 +54,7 @@ def run(ctx):
     exe, model = build(ctx)
     pr = ctx.proofs("c12", "C12Theorems.v")
     # ---- correspondence
-    n = ctx.n(3000, 60000)
+    n = ctx.n(6000, 150000)
     exh = ctx.n(4, 5)
     rc, cases, e = sh2([exe, "corr", "-seed", str(ctx.seed), "-n", str(n), "-exh", str(exh)], timeout=3000)
     if rc != 0:
@@ -75,7 +79,7 @@ def run(ctx):
     ctx.cov["samples"] += [l[:400] for l in lines[len(lines) // 2:len(lines) // 2 + 2]] + [l[:400] for l in lines[-2:]]
     ctx.log("correspondence: %d cases, %d mismatches" % (len(lines), len(mism)))
     # ---- search: the property itself on the implementation
-    ns = ctx.n(1500, 40000)
+    ns = ctx.n(4000, 100000)
     rc, so, e = sh2([exe, "search", "-seed", str(ctx.seed), "-n", str(ns)], timeout=3000)
     if rc != 0:
         raise common.CheckError("harness search failed: " + e[-1000:])
@@ -122,7 +126,7 @@ def run_add_sidx(ctx, exe):
     shutil.rmtree(d, ignore_errors=True)
     os.makedirs(d)
     try:
-        nf = ctx.n(40, 600)
+        nf = ctx.n(60, 1500)
         rc, so, e = sh2([exe, "emit", "-seed", str(ctx.seed), "-n", str(nf), "-dir", d], timeout=600)
         if rc != 0:
             raise common.CheckError("harness emit failed: " + e[-1000:])
@@ -149,7 +153,32 @@ def run_add_sidx(ctx, exe):
 
 
 def replay(ctx, path):
+    """Re-runs a failing-input witness (file bytes + flags) on the current /repo tree: decode, partition,
+    positions, segment-mode re-encoding, UpdateSidx tiling (what can be checked without the generator's
+    ground truth). Exit 1 if it still fails."""
     import json
+    import re
     r = json.load(open(path))
-    print(json.dumps(r, indent=1))
-    return 0
+    print(json.dumps({k: (v if len(str(v)) < 600 else str(v)[:600] + "...") for k, v in r.items()}, indent=1))
+    w = r.get("witness", "")
+    m = re.search(r"file=([0-9a-f]+)", w)
+    if r.get("kind") != "failing-input" or not m or w.endswith("..."):
+        print("nothing to re-run (not a failing input with a complete file)")
+        return 0
+    exe, _model = build(ctx)
+    args = [exe, "replay", "-file", m.group(1)]
+    if "ism=true" in w:
+        args.append("-ism")
+    if "som=true" in w or "som=1" in w:
+        args.append("-som")
+    rc, so, e = sh2(args, timeout=300)
+    bad = 0
+    for l in so.splitlines():
+        f = l.split("\t")
+        if f[0] == "FAIL":
+            bad += 1
+            print("STILL FAILS: %s/%s: %s" % (f[1], f[2], f[4]))
+        elif f[0] == "NOTE":
+            print(f[1][:1500])
+    print("replay: %d failing check(s)" % bad)
+    return 1 if bad or rc != 0 else 0
